@@ -295,3 +295,87 @@ def high_register_sites(db, t, operand_exprs):
                 if not _low_only(db, f2, a[k]):
                     out.append("%s:%s (%s)" % (f2.relfile, c.line, unparse(a[k])[:40]))
     return out
+
+
+def _or_fields(e):
+    """decode `(((a)&3)<<6) | (((b)&7)<<0|3) | ((c)&7)` into {(shift, mask): operand node}."""
+    out = {}
+    st = [strip_casts(e)]
+    while st:
+        x = strip_casts(st.pop())
+        if x is None:
+            continue
+        if x.k == "BinaryOperator" and x.op == "|":
+            st.extend([x.c[0], x.c[1]])
+            continue
+        sh = 0
+        if x.k == "BinaryOperator" and x.op == "<<" and strip_casts(x.c[1]).v is not None:
+            sh = strip_casts(x.c[1]).v
+            x = strip_casts(x.c[0])
+        if x is not None and x.k == "BinaryOperator" and x.op == "&" and strip_casts(x.c[1]).v in (3, 7):
+            out[(sh, strip_casts(x.c[1]).v)] = strip_casts(x.c[0])
+        else:
+            return None
+    return out
+
+
+def check_mod0_base(db, rep, rule):
+    """With ModRM.mod == 0 a base field of 5 (rbp / r13) does not mean "[base]": in ModRM.rm it selects disp32 (RIP-relative in
+    64-bit mode) and in SIB.base it means "no base, disp32 follows".  Every emission of a mod-0 form whose base comes from a
+    register parameter must therefore be guarded by base != rbp and base != r13 (the listing prints the plain register)."""
+    from flow import Facts, cmp_parts
+    tu = db.tu("orcx86")
+    EBP, R13 = db.enum("X86_EBP"), db.enum("X86_R13")
+    n = 0
+    for f in tu.main_functions():
+        if "modrm" not in f.name:
+            continue
+        fc = None
+        stores = [s for s in f.walk() if s.k == "BinaryOperator" and s.op == "=" and "codeptr" in unparse(s.c[0])]
+        # SIB bytes have the same bit layout as ModRM bytes.  A byte is taken to be a SIB byte if it comes from the X86_SIB
+        # macro, or (should the macros disappear) if its middle field is the constant 4 ("no index") with a variable low field.
+        sib_ids = set()
+        for s in stores:
+            fl = _or_fields(s.c[1])
+            if not fl:
+                continue
+            if "X86_SIB" in (s.c[1].mac or []) or ("X86_MODRM" not in (s.c[1].mac or []) and (3, 7) in fl and fl[(3, 7)].v == 4 and (0, 7) in fl and fl[(0, 7)].v is None):
+                sib_ids.add(s.id)
+        for i, s in enumerate(stores):
+            fl = _or_fields(s.c[1])
+            if s.id in sib_ids or not fl or (6, 3) not in fl or (0, 7) not in fl or (3, 7) not in fl:
+                continue
+            mod, rm = fl[(6, 3)], fl[(0, 7)]
+            if mod.v != 0:
+                continue
+            base = rm
+            kind = "ModRM.rm"
+            if rm.v == 4:
+                # SIB byte follows in the same block
+                pos = f.pos(s)
+                nxt = [t for t in stores if f.pos(t) and f.pos(t)[0] == pos[0] and f.pos(t)[1] > pos[1]]
+                sib = _or_fields(nxt[0].c[1]) if nxt else None
+                if not sib or (0, 7) not in sib:
+                    raise AnalysisBroken("%s: SIB byte after ModRM(0, 4, ..) not recognised" % f.name)
+                base, kind = sib[(0, 7)], "SIB.base"
+            if base.v is not None:
+                continue            # constant base field (e.g. 4 = rsp through SIB): nothing to guard
+            if base.k != "DeclRefExpr":
+                raise AnalysisBroken("%s: base operand `%s` is not a plain variable" % (f.name, unparse(base)))
+            fc = fc or Facts(f)
+            excl = set()
+            for c in fc.conds(s):
+                if c[0] == "switch":
+                    continue
+                cp = cmp_parts(c[0])
+                if cp and cp[0] is not None and cp[0].k == "DeclRefExpr" and cp[0].name == base.name and cp[2] is not None and cp[2].v is not None:
+                    if (cp[1] == "!=" and c[1] is True) or (cp[1] == "==" and c[1] is False):
+                        excl.add(cp[2].v)
+            n += 1
+            rep.check({EBP, R13} <= excl, rule, "orc/orcx86.c::%s" % f.name, "mod0:%s=%s" % (kind, base.name),
+                      "mod=0 form emitted only when %s is neither rbp nor r13" % base.name,
+                      "%s emits ModRM.mod=0 with %s = %s without excluding rbp/r13: for those registers the CPU reads `disp32 without base` "
+                      "(the following code bytes become the displacement) while the listing prints 0(%%rbp,...)" % (f.name, kind, base.name), line=s.line)
+    if n < 4:
+        raise AnalysisBroken("only %d mod=0 ModRM emissions with a register base found" % n)
+    return n
